@@ -158,8 +158,84 @@ func extractMapRanges() (string, error) {
 		}
 		fmt.Fprintf(&b, "  (%s, %s, %v, %v, %s)%s\n", leanStr(s.fn), leanStr(s.mapVar), s.sorted, s.insert, leanStr(s.sortForm), sep)
 	}
+	b.WriteString("]\n")
+	// the global unwrap table (internal/httpgen/unwrap.go): every write to and read of it, with the key expression
+	// (a key held in a local variable is resolved through that variable's one definition in the function)
+	tbl, err := unwrapTableSites()
+	if err != nil {
+		return "", err
+	}
+	b.WriteString("/-- the unwrap table of internal/httpgen/unwrap.go: (function, `write` / `read`, key expression). -/\n")
+	b.WriteString("def unwrapTable : List (String × String × String) := [\n")
+	for i, s := range tbl {
+		sep := ","
+		if i == len(tbl)-1 {
+			sep = ""
+		}
+		fmt.Fprintf(&b, "  (%s, %s, %s)%s\n", leanStr(s[0]), leanStr(s[1]), leanStr(s[2]), sep)
+	}
 	b.WriteString("]\nend Sebuf.Gen.MapRanges\n")
 	return b.String(), nil
+}
+
+func unwrapTableSites() ([][3]string, error) {
+	fset := token.NewFileSet()
+	f, err := parser.ParseFile(fset, repo("internal/httpgen/unwrap.go"), nil, 0)
+	if err != nil {
+		return nil, err
+	}
+	tableNames := map[string]bool{"UnwrapFields": true, "unwrapMessages": true, "globalUnwrapMap": true, "unwrapMap": true, "result": true}
+	var out [][3]string
+	for _, decl := range f.Decls {
+		fd, ok := decl.(*ast.FuncDecl)
+		if !ok || fd.Body == nil {
+			continue
+		}
+		// single definitions of local variables
+		defs := map[string]string{}
+		ast.Inspect(fd.Body, func(n ast.Node) bool {
+			if as, ok := n.(*ast.AssignStmt); ok && as.Tok == token.DEFINE && len(as.Lhs) == 1 && len(as.Rhs) == 1 {
+				if id, ok := as.Lhs[0].(*ast.Ident); ok {
+					if _, dup := defs[id.Name]; dup {
+						defs[id.Name] = "<several definitions>"
+					} else {
+						defs[id.Name] = srcOf(as.Rhs[0])
+					}
+				}
+			}
+			return true
+		})
+		writes := map[*ast.IndexExpr]bool{}
+		ast.Inspect(fd.Body, func(n ast.Node) bool {
+			if as, ok := n.(*ast.AssignStmt); ok && as.Tok == token.ASSIGN {
+				for _, l := range as.Lhs {
+					if ix, ok := l.(*ast.IndexExpr); ok {
+						writes[ix] = true
+					}
+				}
+			}
+			return true
+		})
+		ast.Inspect(fd.Body, func(n ast.Node) bool {
+			ix, ok := n.(*ast.IndexExpr)
+			if !ok || !tableNames[lastName(ix.X)] {
+				return true
+			}
+			key := srcOf(ix.Index)
+			if id, ok := ix.Index.(*ast.Ident); ok {
+				if d, ok := defs[id.Name]; ok {
+					key = d
+				}
+			}
+			kind := "read"
+			if writes[ix] {
+				kind = "write"
+			}
+			out = append(out, [3]string{fd.Name.Name, kind, key})
+			return true
+		})
+	}
+	return out, nil
 }
 
 func isMapExpr(e ast.Expr) bool {
